@@ -210,6 +210,7 @@ class LibMixin:
         nm.ns['ndarray'] = BuiltinType('ndarray')
         nm.ns['nan_to_num'] = Builtin('nan_to_num', self.np_nan_to_num)
         nm.ns['array'] = Builtin('array', self.np_array)
+        nm.ns['linspace'] = Builtin('linspace', self.np_linspace)
         self.stub_modules['numpy'] = nm
         rm = ModuleModel('numpy.random')
         rm.opaque = True
@@ -766,6 +767,9 @@ class LibMixin:
         if isinstance(v, (SObj, Instance)):
             h = self.call_dunder(v, '__hash__', [], missing_ok=True)
             if h is NOTIMPL:
+                if isinstance(v, Instance) and v.cls.is_dataclass:
+                    # dataclass-generated __hash__ (frozen / unsafe_hash): hash of the field tuple
+                    return self.hash_of(tuple(v.fields[n] for n, _ in v.cls.dc_fields))
                 raise Unsupported('identity hash')
             return h
         if isinstance(v, SList) and v.is_tuple:
@@ -773,6 +777,28 @@ class LibMixin:
         raise Unsupported('hash of ' + type(v).__name__)
 
     # -------------------------------------------------------------------- numpy
+    def np_linspace(self, I, a, k):
+        """np.linspace(start, stop, num, dtype=int) with concrete num: floor(start + i*(stop-start)/(num-1))
+        (T3; compared with numpy for stop in 0..400, num up to 12 by the bounded item `libmodels`)"""
+        start, stop = a[0], a[1]
+        num = concretize(k.get('num', a[2] if len(a) > 2 else 50))
+        dtype = k.get('dtype')
+        if not (isinstance(dtype, BuiltinType) and dtype.name == 'int'):
+            raise Unsupported('np.linspace without dtype=int')
+        if not isinstance(num, int):
+            raise Unsupported('np.linspace with a symbolic number of samples')
+        if num < 0:
+            py_raise('ValueError', 'Number of samples must be non-negative')
+        if num == 0:
+            return self.new_list([])
+        if num == 1:
+            return self.new_list([start])
+        span = self.arith(ast.Sub, stop, start)
+        out = []
+        for i in range(num):
+            out.append(self.arith(ast.Add, start, self.arith(ast.FloorDiv, self.arith(ast.Mult, i, span), num - 1)))
+        return self.new_list(out)
+
     def np_array(self, I, a, k):
         """np.array(nested lists[, dtype]): kept as the nested list itself (element access only)"""
         x = a[0]
@@ -1079,6 +1105,16 @@ class LibMixin:
         return concretize(z3.And(*cs)) if cs else True
 
     def ext_binop(self, op, a, b):
+        if op is ast.Add and isinstance(a, (GenList, list, SList)) and isinstance(b, (GenList, list, SList)) \
+                and (isinstance(a, GenList) or isinstance(b, GenList)):
+            # concatenation of list views: the chain of their generator parts
+            def parts_of(x):
+                if isinstance(x, GenList):
+                    return list(x.gen.parts)
+                if isinstance(x, list):
+                    return [Part([], True, it) for it in x]
+                return self.comprehension_of(x).parts
+            return GenList(Gen(parts_of(a) + parts_of(b)))
         if isinstance(a, CSet) and isinstance(b, CSet) and op is ast.BitOr:
             return self.make_set(a.items + b.items)
         if isinstance(a, SArr) and op in (ast.BitOr, ast.BitAnd) and isinstance(b, SArr):
